@@ -572,8 +572,10 @@ def main(argv=None):
     err = validate_evidence(ev)
     if err:
         harness_errors.append('evidence does not validate: %s' % err)
-    os.makedirs(os.path.join(ROOT, 'evidence'), exist_ok=True)
-    with open(os.path.join(ROOT, 'evidence', prop + '.json'), 'w') as fh:
+    # runs against another tree (VERIF_REPO: seeded changes in scratch worktrees) must not overwrite the evidence of /repo
+    ev_dir = 'evidence' if os.path.realpath(os.environ.get('VERIF_REPO', '/repo')) == os.path.realpath('/repo') else os.path.join('.work', 'evidence-other-tree')
+    os.makedirs(os.path.join(ROOT, ev_dir), exist_ok=True)
+    with open(os.path.join(ROOT, ev_dir, prop + '.json'), 'w') as fh:
         json.dump(ev, fh, indent=1, sort_keys=True)
 
     # 6. report
